@@ -282,6 +282,7 @@ def check(fx, rep, tier):
     # R16.4 doc comments: every #[doc] attribute of the item is collected
     rep.rule('R16.4', 'doc comments become comments: the function that collects #[doc] attributes visits every attribute of the item (a filter over all of them) - no '
                       'take_while / skip_while / find / early exit that would drop doc lines standing after another attribute')
+    rep.rule('R16.8', 'doc comments enter the description in the form that renders and parses back unchanged: leading blanks of the doc line are stripped (the parser skips them after `#`)')
     n4 = 0
     for fn, n, impl in A.all_fns(fx.tpl, 'zlink-macros/src'):
         body_nodes = list(A.nodes(n.get('body') or []))
@@ -315,6 +316,28 @@ def check(fx, rep, tier):
                   '%s keeps the text of every doc attribute as one comment' % n['name'],
                   '%s splits, filters or rewrites the text of a doc attribute (%s): a doc line can vanish or change on the way into the description (an empty `///` line '
                   'is a comment line of its own)' % (n['name'], ', '.join(reshaped)))
+        # R16.8 the text enters the description in the form that parses back: the parser drops every blank between `#` and the text, and rustdoc
+        # hands `/// text` over as " text" - so the collected text must have its leading blanks stripped before it becomes a Comment
+        STRIP = re.compile(r'\.\s*(trim|trim_start|trim_ascii|trim_ascii_start|trim_start_matches)\s*\(')
+        lets = {}
+        for x in body_nodes:
+            if x.get('k') == 'let' and isinstance(x.get('init'), dict):
+                lets[(x.get('pat') or '').replace('mut ', '').strip()] = A.text(x['init'])
+        pushes = [x for x in body_nodes if x.get('k') == 'mcall' and x.get('method') in ('push', 'push_back', 'extend', 'insert')]
+        maps = [x for x in body_nodes if x.get('k') == 'mcall' and x.get('method') in ('map', 'filter_map', 'flat_map') and 'value' in A.text(x)]
+        unstripped = []
+        for x in pushes + maps:
+            txt = ' '.join(A.text(a) for a in x.get('args') or [])
+            if 'value' not in txt and not any(re.search(r'\b%s\b' % re.escape(v), txt) for v in lets):
+                continue
+            srcs = [txt] + [lets[v] for v in lets if re.search(r'\b%s\b' % re.escape(v), txt)]
+            if not any(STRIP.search(t) for t in srcs):
+                unstripped.append('%s(..) at line %s' % (x.get('method'), x.get('line')))
+        rep.check(not unstripped, 'R16.8', '%s|doc-text-without-leading-blanks' % n['name'], '%s:%s' % (fn, n.get('line')),
+                  '%s strips the leading blanks of a doc line before it becomes a comment (`/// text` is the attribute " text"; the IDL parser reads `#  text` back as "text")' % n['name'],
+                  '%s keeps the leading blank rustdoc puts in front of every `/// text` line (%s): the derived description carries " text", Display writes `#  text`, '
+                  'and the parser - which skips all blanks after `#` - reads back "text": a description derived from an ordinarily documented type is not equal to '
+                  'its own rendered-and-parsed form' % (n['name'], ', '.join(unstripped)))
     if not n4:
         rep.bad('R16.4', 'anchor', 'zlink-macros/src', 'no function collecting #[doc] attributes found')
     # R16.5 lifetimes: the derive names each field type inside a `static`, where the item's lifetime parameters are not in scope; the stripper that
